@@ -51,6 +51,25 @@ const std::vector<std::string>& block_texts()
         "",
         "   \n\n  ",
         "// only a comment",
+        // abandoned in the middle of productions that keep process-global parser state
+        "int za[int[0,1]][3",
+        "int zb[int[0,1]][int[0,2]][",
+        "int zc[3]; int zd[2][4], ze;",
+        "int zf[int[0,1]][2]; zf[0][1]",
+        "void zg() { int i; for (i = 0; i < 3; i++) { if (i > 1) {",
+        "typedef struct { int a; int zh[2",
+    };
+    return v;
+}
+/** the grammar entry point each block text is written for (index-aligned with block_texts) */
+const std::vector<int>& block_parts()
+{
+    using namespace UTAP;
+    static const std::vector<int> v{
+        S_DECLARATION, S_DECLARATION, S_GUARD,       S_ASSIGN,      S_SYNC,        S_SELECT,      S_PARAMETERS, S_DECLARATION,
+        S_GUARD,       S_INVARIANT,   S_EXPRESSION,  S_EXPRESSION,  S_EXPRESSION_LIST, S_SYSTEM,  S_SYSTEM,     S_DECLARATION,
+        S_DECLARATION, S_INVARIANT,   S_PROBABILITY, S_EXPRESSION,  S_DECLARATION, S_LOCAL_DECL,  S_DECLARATION,
+        S_DECLARATION, S_LOCAL_DECL,  S_DECLARATION, S_LOCAL_DECL,  S_DECLARATION, S_DECLARATION,
     };
     return v;
 }
@@ -156,7 +175,12 @@ HOp make_followup(RunCtx& ctx, Rng& rng, int session)
                                     UTAP::S_SYSTEM,      UTAP::S_LOCAL_DECL};
         c.entry = E_PART;
         c.part = parts[rng.below(sizeof parts / sizeof parts[0])];
-        c.bytes = rng.pick(block_texts());
+        {
+            size_t ti = rng.below((uint32_t)block_texts().size());
+            c.bytes = block_texts()[ti];
+            if (rng.chance(0.6) && ti < block_parts().size())
+                c.part = block_parts()[ti];  // mostly the entry point the text is meant for, sometimes a mismatching one
+        }
         c.backend = rng.chance(0.7) ? B_BUILDER : (rng.chance(0.5) ? B_PRETTY : B_TIGA);
         c.xpath = rng.chance(0.5) ? "" : "/nta/declaration";
         c.newxta = !rng.chance(0.1);
